@@ -291,7 +291,11 @@ impl Runner {
             // obeys `stop`, the session goes on and the case is counted, not reported.
             let cmd = self.model.outstanding.map(|i| self.model.gos[i].cmd.clone()).unwrap_or_default();
             let depth_only = cmd.starts_with("go depth") && !["movetime", "wtime", "btime", "infinite"].iter().any(|t| cmd.contains(t));
-            if depth_only {
+            // ... unless it has already reported an iteration beyond its limit: then it is not
+            // slow, it is not going to end by itself
+            let limit: i64 = cmd.split_ascii_whitespace().nth(2).and_then(|t| t.parse().ok()).unwrap_or(i64::MAX);
+            let beyond = self.model.outstanding.map(|i| self.model.gos[i].depth_lines.iter().filter_map(|d| d.trim().parse::<i64>().ok()).any(|d| d > limit)).unwrap_or(false);
+            if depth_only && !beyond {
                 self.sess.send("stop");
                 ok = self.pump_until(self.watchdog, |m, _| m.outstanding.is_none());
                 if ok {
